@@ -11,7 +11,15 @@ inductive RunEnd where
   | keyboardInterrupt
   | remoteException              -- a remote simulator's handler raised: logged, not re-raised
   | other (cls : Nat)            -- any other exception class (SimulationError, IncompleteReadError, ValueError, …)
+  | systemExit                   -- `SystemExit` raised inside an in-process simulator (`sys.exit()` in a handler)
 deriving Repr, DecidableEq, Inhabited
+
+/-- `KeyboardInterrupt` and `SystemExit` are not handed to the failing task's waiters: they leave the event loop at once
+(`Task.__step` re-raises them), so `run_until_complete` returns while the scheduler task is still pending -/
+def RunEnd.leavesMainPending : RunEnd → Bool
+  | .keyboardInterrupt => true
+  | .systemExit => true
+  | _ => false
 
 /-- what the caller of `World.run` sees -/
 inductive Surface where
@@ -23,6 +31,7 @@ structure WorldSt where
   n : Nat                        -- number of simulators
   loopClosed : Bool := false
   stops : List Nat := []         -- `sim.stop()` calls so far, most recent first
+  mainPending : Bool := false    -- the task of `scheduler.run` is neither finished nor cancelled
 deriving Repr, DecidableEq, Inhabited
 
 /-- the `for sim in self.sims.values(): run_until_complete(sim.stop())` loop from simulator `i` on;
@@ -35,23 +44,35 @@ def stopFrom (stopRaises : Nat → Option Nat) : Nat → Nat → List Nat → Li
     | some cls => (i :: log, some cls)
     | none => stopFrom stopRaises k (i + 1) (i :: log)
 
-/-- `World.shutdown()` -/
+/-- class number used for a `KeyboardInterrupt` / `SystemExit` that comes up again inside `shutdown()` -/
+def resurfaced : Nat := 0
+
+/-- `World.shutdown()`.  With the scheduler task still pending, the exception that left the loop comes up a second time when
+the loop runs again (`loop.run_forever()` after the stop calls): `loop.close()` is not reached (observed on the tree before
+fix D22: every simulator finalized, loop left open, the exception raised out of `shutdown()`) -/
 def shutdown (stopRaises : Nat → Option Nat) (w : WorldSt) : WorldSt × Option Nat :=
   if w.loopClosed then (w, none)
   else
     match stopFrom stopRaises w.n 0 w.stops with
     | (log, some cls) => ({ w with stops := log }, some cls)          -- loop.close() is not reached
-    | (log, none) => ({ w with stops := log, loopClosed := true }, none)
+    | (log, none) =>
+      if w.mainPending then ({ w with stops := log }, some resurfaced)
+      else ({ w with stops := log, loopClosed := true }, none)
+
+/-- `while not main_task.done(): main_task.cancel(); run_until_complete(main_task)` at the head of `World.run`'s `finally`
+(fix D22): the scheduler winds down before the simulators are stopped -/
+def windDown (w : WorldSt) : WorldSt := { w with mainPending := false }
 
 /-- `World.run()` from the point where `scheduler.run` has ended -/
 def run (stopRaises : Nat → Option Nat) (w : WorldSt) (e : RunEnd) : WorldSt × Surface :=
-  let (w', ex) := shutdown stopRaises w
+  let (w', ex) := shutdown stopRaises (windDown { w with mainPending := e.leavesMainPending })
   (w', match ex with
     | some cls => .raised cls          -- an exception in `finally` replaces the original one
     | none => match e with
       | .ok => .returned
       | .keyboardInterrupt => .returned
       | .remoteException => .returned
-      | .other cls => .raised cls)
+      | .other cls => .raised cls
+      | .systemExit => .raised resurfaced)
 
 end Mosaik.RunShutdown
